@@ -642,6 +642,17 @@ def garbage_sees_deleted(run, fx, rule='DETACH'):
             t = an.strip(e['c'][0])
             if t['k'] == 'MemberExpr' and '_contexts' in an.render(t):
                 flags.add(t.get('d').split('::')[-1])
+    # Pass::findNDoRule calls collectGarbage only for an action whose Code::deletes() is true: the DELETE arm itself sets that flag, for
+    # every DELETE the decoder sees (a flag derived later from the per-slot marks misses the slot the action ends on)
+    dflag = [e for _, e in an.elements() if e['k'] == 'BinaryOperator' and e['op'] == '=' and (an.strip(e['c'][0]).get('d') or '').endswith('Code::_delete')
+             and an.strip_all_casts(an.N(e['c'][1])).get('v') in (1, True) and str(dele[0]) in ctx.get(an.block_of[e['i']], ())]
+    i2 = 'every DELETE the decoder sees marks the action as deleting'
+    if dflag and not [g for g in dom.edge_guards(an, an.block_of[dflag[0]['i']]) if 'opc' not in an.render(an.N(g[0]) if isinstance(g[0], int) else g[0])]:
+        run.held(rule, i2, an.loc(dflag[0]), '_code._delete = true in the DELETE arm of analyse_opcode, unconditionally')
+    else:
+        run.violated(rule, i2, an.where(), 'the DELETE arm of decoder::analyse_opcode no longer sets Code::_delete (unconditionally): Pass::findNDoRule runs SlotMap::collectGarbage only for actions whose '
+                     'deletes() is true, so a DELETE the flag misses -- e.g. on the slot the action ends on, which a loop over the contexts before the current one does not visit -- leaves the deleted '
+                     'slot unfreed and in its parent\'s child chain')
     # ... and nothing takes the mark back: the only way a context loses it is to be replaced by a fresh one (NEXT / COPY_NEXT construct a
     # new `context`); a store of false to the flag in any arm (INSERT shares the context of the slot in front of it) re-arms the TEMP_COPY
     for fq_ in (an, aa):
